@@ -283,8 +283,10 @@ func driveMain() {
 		fmt.Fprintf(os.Stderr, "harness errors (%d), first: %s\n", len(a.harnessErrs), a.harnessErrs[0])
 		exit = 2
 	}
-	for k, n := range a.known {
-		fmt.Printf("KNOWN-FINDING: property=%s %s (matched %d runs)\n", d.prop, k, n)
+	// every listed known finding of this property is printed, with the number of runs of this
+	// batch that reproduced it (a seeded search may not hit each of them every time)
+	for _, k := range known {
+		fmt.Printf("KNOWN-FINDING: property=%s %s (reproduced by %d runs of this batch)\n", d.prop, k.What, a.known[k.What])
 	}
 	if exit == 0 && len(violations) > 0 {
 		v := violations[0]
